@@ -291,6 +291,52 @@ def config_scenario(ctx, R):
                     return
 
 
+def reload_scenario(ctx):
+    """the board table after a reload (SIGHUP) is the one the configuration defines NOW: nobodd.server.main is run with its
+    request loop replaced by one that records the table it is given, rewrites the configuration and asks for a reload --
+    a removed board must be gone, a moved board must name its new partition, an added ip= must be there"""
+    from unittest import mock
+    import io, contextlib
+    import nobodd.server as NS
+    with tempfile.TemporaryDirectory() as tmp:
+        tmp = Path(tmp)
+        conf = tmp / 'nobodd.conf'
+        (tmp / 'a.img').write_bytes(b'')
+        (tmp / 'b.img').write_bytes(b'')
+        def write(boards):
+            conf.write_text('[tftp]\nlisten = 127.0.0.1\nport = 1069\n\n' + ''.join(
+                f'[board:{s:x}]\nimage = {img}\npartition = {p}\n' + (f'ip = {ip}\n' if ip else '') + '\n' for s, (img, p, ip) in boards.items()))
+        first = {0xaaaa0001: ('a.img', 1, None), 0xaaaa0002: ('a.img', 1, None), 0xaaaa0003: ('b.img', 2, None)}
+        second = {0xaaaa0002: ('a.img', 2, None), 0xaaaa0003: ('b.img', 2, '10.0.0.9'), 0xaaaa0004: ('b.img', 1, None)}
+        write(first)
+        seen = []
+        def loop(server_address, boards):
+            seen.append({s: (b.image.name, b.partition, str(b.ip) if b.ip is not None else None) for s, b in boards.items()})
+            if len(seen) == 1:
+                write(second)
+                raise NS.ReloadRequest()
+            raise NS.TerminateRequest(0)
+        err = io.StringIO()
+        with mock.patch.object(NS, 'CONFIG_LOCATIONS', (conf,)), mock.patch.object(NS, 'request_loop', loop), \
+                warnings.catch_warnings(), contextlib.redirect_stderr(err):
+            warnings.simplefilter('ignore')
+            try:
+                with lib.time_limit(20, 'nobodd.server.main with a recording request loop'):
+                    rc = NS.main([])
+            except BaseException as e:
+                rc = f'{type(e).__name__}: {e}'
+        ctx.case(('reload',), True, 'config-reload')
+        info = dict(first_config={f'{k:x}': v for k, v in first.items()}, second_config={f'{k:x}': v for k, v in second.items()},
+                    tables_seen=[{f'{k:x}': v for k, v in t.items()} for t in seen], rc=str(rc), stderr=err.getvalue()[-300:])
+        if rc != 0 or len(seen) != 2 or seen[0] != first:
+            ctx.violation('boot.config/reload-harness', f'main() with the recording loop: rc {rc}, {len(seen)} tables, first table as configured: {seen[:1] == [first]}', info)
+            return
+        if seen[1] != second:
+            diff = sorted(f'{k:x}' for k in set(seen[1]) | set(second) if seen[1].get(k) != second.get(k))
+            ctx.violation('boot.config/stale-after-reload', f'after the configuration was rewritten and a reload requested, boards {diff} are still served as before '
+                          f'(table {info["tables_seen"][1]}, configuration {info["second_config"]})', info)
+
+
 def run(ctx, build):
     from nobodd.server import BootHandler
     from nobodd.config import Board
@@ -302,6 +348,9 @@ def run(ctx, build):
     tables = 150 if ctx.thorough else 3
     if ctx.widen:
         tables += 1
+    reload_scenario(ctx)
+    if ctx.violations:
+        return
     for _ in range(4 if ctx.thorough else 1):
         config_scenario(ctx, R)
         if ctx.violations:
